@@ -13,7 +13,7 @@ let table : (string * ((Model.z list -> Model.z list) * (Model.z list -> Model.z
   ("C07", (Model.run_c07, Model.chk_c07_all));
   ("C04", (Model.run_svc, Model.chk_c04));
   ("C05", (Model.run_svc, Model.chk_c05));
-  ("C09", (Model.run_svc, Model.chk_c09));
+  ("C09", (Model.run_c09, Model.chk_c09_all));
   ("C02", (Model.run_ipam, Model.chk_c02));
   ("C03", (Model.run_c03, Model.chk_c03_all));
   ("C08", (Model.run_ipam, Model.chk_c08));
@@ -29,7 +29,7 @@ let why : (string * (Model.z list -> Model.z list -> Model.z)) list = [
   ("C07", Model.why_c07);
   ("C04", Model.why_svc (Model.Zpos (Model.XO (Model.XO Model.XH))));
   ("C05", Model.why_svc (Model.Zpos (Model.XI (Model.XO Model.XH))));
-  ("C09", Model.why_svc (Model.Zpos (Model.XI (Model.XO (Model.XO Model.XH)))));
+  ("C09", Model.why_c09);
   ("C02", Model.why_ipam (Model.Zpos (Model.XO Model.XH)));
   ("C03", Model.why_c03);
   ("C08", Model.why_ipam (Model.Zpos (Model.XO (Model.XO (Model.XO Model.XH)))));
